@@ -8,6 +8,7 @@ import (
 	"strings"
 
 	"github.com/arr-ai/frozen"
+	"github.com/arr-ai/hash"
 	"github.com/arr-ai/wbnf/parser"
 
 	"github.com/arr-ai/arrai/pkg/fu"
@@ -416,7 +417,7 @@ func (r Relation) Hash(seed uintptr) uintptr {
 	for i := r.Enumerator(); i.MoveNext(); {
 		h ^= i.Current().Hash(seed)
 	}
-	return h
+	return hash.Uintptr(h, seed) // mixed, see Array.Hash
 }
 
 // RelationValuesEnumerator enumerates the values as Values.
